@@ -236,6 +236,18 @@ def _check_set(ctx, spec, refs_obj, current, tag):
                           scale=scale * T + max(abs(x) for x in off_ref.values()) * T_ref * sum(comp.values()))
             ctx.check('X5', vals['H_sw'] == vals['H_off'] and vals['G_sw'] == vals['G_off'], dict(mech, what='bitwise'),
                       H_sw=vals['H_sw'], H_off=vals['H_off'], G_sw=vals['G_sw'], G_off=vals['G_off'])
+            # the same through the dimensional getters (value with units switched off == never referenced)
+            for q in ('get_H', 'get_G'):
+                a = ctx.call('X5', dict(mech, q=q, what='dimensional'), getattr(on, q), units='kJ/mol', T=T,
+                             use_references=False)
+                b = ctx.call('X5', dict(mech, q=q, what='dimensional'), getattr(off, q), units='kJ/mol', T=T)
+                c_on = ctx.call('X3', dict(m3, q=q, what='dimensional'), getattr(on, q), units='kJ/mol', T=T)
+                if core.NOVALUE not in (a, b):
+                    ctx.check('X5', _f(a) == _f(b), dict(mech, q=q, what='dimensional'), sw=_f(a), off=_f(b))
+                if core.NOVALUE not in (c_on, b):
+                    # energy added in kJ/mol = eH (in K) times R
+                    ctx.close('X3', (_f(c_on) - _f(b)) / 8.3144598e-3, eH, 1e-8, dict(m3, q=q, what='dimensional'),
+                              scale=scale * T)
             for q in ('get_SoR', 'get_CvoR', 'get_CpoR'):
                 a = ctx.call('X4', dict(mech, q=q), getattr(on, q), T=T)
                 b = ctx.call('X4', dict(mech, q=q), getattr(off, q), T=T)
